@@ -112,6 +112,36 @@ check(
     "DESIGN.md section 5 (C20)",
 )
 
+check(
+    "C03",
+    "exploration",
+    "SCF sessions: a batch (neutral, cations, anions, doublets, triplets, zero-padded mixtures) followed through a seeded history of MOVE / SOLVE(solver x SP2 x eps x RHF/UHF, cold or carried start, iteration cap) / FAULT(noise, scaling, de-idempotisation, stale, asymmetric) operations on the carried density. Liveness: every solve runs under a line-event clock over seqm/ frames (bounded liveness in simulated time, replayable; non-termination is reported with the file:line where the clock ran out). Safety: for every molecule flagged converged, symmetry, trace, charge sum, idempotency, commutator with the Fock matrix rebuilt from the returned density, an independent re-diagonalisation and the energy functional are within K x tau.",
+    "Residuals use the repository's Fock builder (operator correctness is C06, not applicable) and an independent eigh. K frozen at >= 10 x the worst calibrated value: detects wrong/unconverged answers, not small regressions. Pool of 18 species; PM6 d-orbitals and GPU not reached.",
+    "deterministic simulation: seeded operation/fault histories on carried solver state, iteration caps as knobs, simulated-time liveness clock (sys.settrace line events)",
+    "scfsim",
+    "DESIGN.md section 5 (C03)",
+)
+
+check(
+    "C04",
+    "exploration",
+    "The same SCF sessions restricted to near-equilibrium closed-shell molecules with gap > 2 eV: the density handed to a solve comes from the previous geometry, another solver, an RHF<->UHF-singlet switch or a faulted density, in any order. Every converged solve is compared (energy, forces, charges, orbital energies) with a reference solve of the same geometry (cold, diagonalisation, adaptive->Pulay, eps 1e-11) within K x tau; tightening chains (eps, eps/100, eps/1e4 from the same start) must not move away from the limit.",
+    "Cross-solver agreement within one code base, not absolute correctness. Bounds are an order of magnitude above what the code achieves.",
+    "deterministic simulation: seeded solver-path/start-density histories compared against a fixed reference path",
+    "scfsim",
+    "DESIGN.md section 5 (C04)",
+)
+
+check(
+    "C17",
+    "exploration",
+    "The real SurfaceHoppingDynamics run loop (crossing detection, RK4 propagation, hop attempt, velocity rescaling, relabelling, hold-off counters, cache shifting) driven through the subclass seam the repository's own Tully script uses, with (a) a scripted stream of per-step energies, antisymmetric couplings with spikes up to 100/fs, gaps 1e-4-5 eV, state amplitudes with swaps, NAC vectors incl. exactly perpendicular ones, 2-8 states, 1-5 trajectories, fixed/adaptive sub-steps, decoherence on/off, hop draws recorded and scaled through an RNG proxy; (b) N-state analytic model trajectories; (c) the Tully script itself. Every call of the hop logic is observed: norm drift against the RK4 law and a sub-step-halved twin, hop target against the fewest-switches selection rule on the captured draw, accepted hops (direction, energy, smaller root), frustrated hops untouched, relabelling is a permutation of amplitudes and active index, and an isolation twin (one trajectory changed) leaves every other trajectory bit-identical.",
+    "Electronic structure is supplied (scripted or analytic); real CIS electronic structure under surface hopping is exercised by the C10/C11/C12 real strata. With adaptive sub-steps the count is batch-global by design; isolation is compared up to the first step where that count differs.",
+    "deterministic simulation: real hop logic stepped on a seeded scripted input stream with an RNG seam (recorded/forced draws), reference selection/energy/permutation rules, isolation and order twins",
+    "shsim",
+    "DESIGN.md section 5 (C17)",
+)
+
 PENDING = {}
 
 
